@@ -15,7 +15,7 @@ pub fn prop() -> Prop {
     Prop {
         id: "C06",
         level: "exploration",
-        rule: "complete cross products: integer boundary lattice (0, ±1, ±2, ±7, ±2^k, ±(2^k±1), k<=60, both range ends, two seed-rotated values) squared x 11 operators x 4 syntactic forms (literal op literal; variable op literal, literal op variable and variable op variable inside a function; the fused opcodes are selected by the middle two); 66 ordinary integers (round decimals, values between 2^31 and 2^32, factors around the square root of the range limit) squared x 11 operators x 4 forms, and against every float in both orders; 26 float values squared x 11 operators; 110 neighbouring floats (values 0, 1 and 2 units in the last place around 11 magnitudes, both signs) squared x 6 comparisons x 2 forms, and arithmetic results against the literal next to them; all string pairs of length <=2 over {a,b,é,😀} x 6 comparisons; strings of 3..33 characters (around the machine-word sizes) that differ at one position, at two positions in opposite directions (every pair of positions), by a wide character, or by being a prefix, x 6 comparisons x 2 forms; all 7x7 type pairs x 13 operators; !(x op y) for every float pair and every type pair x 6 comparisons; order axioms over all triples of 40-value subsets read through the interpreter. A case is one program; it is non-trivial if it parsed back to the generated tree and the reference model defines its outcome (not Ux); distinct = distinct program texts",
+        rule: "complete cross products: integer boundary lattice (0, ±1, ±2, ±7, ±2^k, ±(2^k±1), k<=60, both range ends, two seed-rotated values) squared x 11 operators x 4 syntactic forms (literal op literal; variable op literal, literal op variable and variable op variable inside a function; the fused opcodes are selected by the middle two); 66 ordinary integers (round decimals, values between 2^31 and 2^32, factors around the square root of the range limit) squared x 11 operators x 4 forms, and against every float in both orders; three-operand chains `x op1 c1 op2 c2` and `c1 op1 x op2 c2` (13 x incl. the range ends, 15 constants squared, 5 x 5 arithmetic operators; x a local and a global); 26 float values squared x 11 operators; 110 neighbouring floats (values 0, 1 and 2 units in the last place around 11 magnitudes, both signs) squared x 6 comparisons x 2 forms, and arithmetic results against the literal next to them; all string pairs of length <=2 over {a,b,é,😀} x 6 comparisons; strings of 3..33 characters (around the machine-word sizes) that differ at one position, at two positions in opposite directions (every pair of positions), by a wide character, or by being a prefix, x 6 comparisons x 2 forms; all 7x7 type pairs x 13 operators; !(x op y) for every float pair and every type pair x 6 comparisons; order axioms over all triples of 40-value subsets read through the interpreter. A case is one program; it is non-trivial if it parsed back to the generated tree and the reference model defines its outcome (not Ux); distinct = distinct program texts",
         assumptions: &[
             "the reference model's operator table (refint::infix: i64 checked arithmetic within the 61-bit range, Rust f64, str ordering) is the specification",
             "operand values outside the enumerated lattices are not covered",
@@ -531,6 +531,34 @@ fn run(sh: &mut Shard) {
             }
         }
     }
+    // F1c three-operand chains x op1 c1 op2 c2 (the shape compilers fold): x from the range ends and a few
+    // ordinary values, c1 / c2 from small and huge constants, every pair of arithmetic operators; x a local,
+    // a global, and a literal
+    {
+        let max = (1i64 << 60) - 1;
+        let xs: Vec<i64> = vec![max, -max, -max - 1, max - 1, 0, 1, -1, 7, -7, 1000, 1 << 31, (1 << 59) + 3, 123_456_789_012];
+        let cs: Vec<i64> = vec![1, 2, 3, 7, 10, 1 << 16, 1 << 30, (1 << 30) + 1, 1 << 32, 3_037_000_500, 1 << 59, max, -1, -2, -(1 << 30)];
+        let chain_ops = [Operator::Add, Operator::Subtract, Operator::Multiply, Operator::Divide, Operator::Modulo];
+        for x in &xs {
+            for c1 in &cs {
+                for c2 in &cs {
+                    for op1 in &chain_ops {
+                        for op2 in &chain_ops {
+                            let e = |xe: Expr| infix(infix(xe, op1.clone(), lit_expr(*c1)), op2.clone(), lit_expr(*c2));
+                            run_case(sh, "int-chain", &[es(call(func("", &["x"], vec![es(e(id("x")))]), vec![lit_expr(*x)]))]);
+                            run_case(sh, "int-chain", &[let_("x", lit_expr(*x)), es(e(id("x")))]);
+                            // literal first: c1 op1 x op2 c2
+                            run_case(
+                                sh,
+                                "int-chain",
+                                &[es(call(func("", &["x"], vec![es(infix(infix(lit_expr(*c1), op1.clone(), id("x")), op2.clone(), lit_expr(*c2)))]), vec![lit_expr(*x)]))],
+                            );
+                        }
+                    }
+                }
+            }
+        }
+    }
     // F1 the integer lattice, four forms
     let lat = lattice(tier, seed);
     for a in &lat {
@@ -589,7 +617,7 @@ fn replay(sh: &mut Shard, case: &Value) {
 }
 
 fn vacuity(m: &Merged) -> Option<String> {
-    for fam in ["int-literal", "int-var-lit", "int-lit-var", "int-var-var", "int-ordinary", "int-float", "float", "string", "string-long", "float-neighbours", "negated-comparison", "cross-type", "bool-table", "axioms"] {
+    for fam in ["int-literal", "int-var-lit", "int-lit-var", "int-var-var", "int-ordinary", "int-float", "int-chain", "float", "string", "string-long", "float-neighbours", "negated-comparison", "cross-type", "bool-table", "axioms"] {
         if m.counters.get(&format!("family:{fam}")).copied().unwrap_or(0) == 0 {
             return Some(format!("family {fam} produced no case"));
         }
